@@ -1,6 +1,7 @@
 import ScriggoV.Drv.Util
 import ScriggoV.Model.Escape
 import ScriggoV.Spec.Decode
+import ScriggoV.Model.URLRender
 /-! C07 line protocol.
 `C07 esc <which> <hex>`  → `ok <n> <chunk>,<chunk>,…` (`none` when nothing is written; a chunk is
                            lower-case hex, `-` = empty) or `err <fault>`;
@@ -8,7 +9,11 @@ import ScriggoV.Spec.Decode
                            css js path0 path1 (quoted) query
 `C07 dec <which> <hex>`  → `ok <hex>` / `err invalid`; which ∈ html css js json pct0 pct1
 `C07 alpha <hex>`        → `ok 0|1` (unreserved ∪ %XX)
-`C07 pred <which> <n>`   → `ok 0|1`; which ∈ prefix ishex -/
+`C07 pred <which> <n>`   → `ok 0|1`; which ∈ prefix ishex
+`C07 url (t <hex> <inURL> <isSet> | s <hex> <inURL> <quoted>)*` → the renderer's URL state machine
+                           on the calls Text / Show(string value): `ok <output hex> <state>.<state>…`
+                           (state after each call: 4 bits inURL query addAmpersand removeQuestionMark;
+                           `-` for no calls) or `err <fault>` -/
 namespace ScriggoV.Drv.C07
 open ScriggoV ScriggoV.Escape ScriggoV.Decode
 
@@ -55,6 +60,29 @@ def decode? (which : String) (s : Bytes) : Option String :=
   | "pct1" => some (optBytes (pctDecode true s))
   | _ => none
 
+def parseCalls : List String → Option (List URLState.Call)
+  | [] => some []
+  | k :: h :: a :: b :: rest => do
+    let s ← fromHex h
+    let a ← (a.toList.head?).bind bit?
+    let b ← (b.toList.head?).bind bit?
+    let cs ← parseCalls rest
+    if k == "t" then pure (.text s a b :: cs)
+    else if k == "s" then pure (.show (URLRender.shownString s) a b :: cs)
+    else none
+  | _ => none
+
+def stateStr (r : URLState.State) : String :=
+  String.ofList ([r.inURL, r.query, r.addAmpersand, r.removeQuestionMark].map fun b => if b then '1' else '0')
+
+/-- run the calls one by one, collecting the rendered output and the state after each call -/
+def runURL : URLState.State → List URLState.Call → Bytes → List String → Except Fault (Bytes × List String)
+  | _, [], out, sts => .ok (out, sts.reverse)
+  | r, c :: cs, out, sts =>
+    match URLState.step r c with
+    | .error f => .error f
+    | .ok (r', o) => runURL r' cs (out ++ URLRender.render o) (stateStr r' :: sts)
+
 def okBool (b : Bool) : String := if b then "ok 1" else "ok 0"
 
 def handle : List String → Option String
@@ -67,6 +95,11 @@ def handle : List String → Option String
   | ["alpha", h] => do
     let s ← fromHex h
     pure (okBool (pctAlphabet s))
+  | "url" :: rest => do
+    let cs ← parseCalls rest
+    match runURL {} cs [] [] with
+    | .ok (out, sts) => pure ("ok " ++ toHex out ++ " " ++ (if sts.isEmpty then "-" else ".".intercalate sts))
+    | .error f => pure ("err " ++ f.name)
   | ["pred", which, n] => do
     let n ← n.toNat?
     if n ≥ 256 then none
